@@ -131,6 +131,14 @@ def fill(obj, B, v, route=None):
             # build the member from the component type the parent actually declares (it may carry
             # constraints the AST does not know about)
             sub = value(ft, v[name], route, sch=obj.componentType[name].asn1Object)
+            if route is not None and U.base_of(ft)[0] in ('int', 'octs') and len(U.base_of(ft)) == 1 and route.subtype_member():
+                # the member is given as a value of a type DERIVED from the declared one (an extra constraint that
+                # admits it): legal wherever the parent type is expected, and the same abstract value
+                from pyasn1.type import constraint
+                x = v[name]
+                spec = constraint.ValueRangeConstraint(x - 1, x + 1) if U.base_of(ft)[0] == 'int' else \
+                    constraint.ValueSizeConstraint(0, len(x) + 3)
+                sub = sub.subtype(subtypeSpec=spec)
             if route is not None and route.by_position():
                 obj.setComponentByPosition([f[0] for f in B[1]].index(name), sub)
             else:
@@ -199,6 +207,12 @@ class Route(object):
         self.used.add('list-' + r)
         return r
 
+    def subtype_member(self):
+        r = self.rng.random() < 0.2
+        if r:
+            self.used.add('member-of-a-derived-type')
+        return r
+
 
 class OmitDefaults(Route):
     """Deterministic route: DEFAULT components equal to their default are left absent, everything else as in the plain
@@ -219,6 +233,9 @@ class OmitDefaults(Route):
 
     def list_route(self):
         return 'append'
+
+    def subtype_member(self):
+        return False
 
 
 def pytree(T, v, native_style=False):
